@@ -32,6 +32,12 @@ CHECKS = {
  "C10": dict(tech="TLC static obligations over the parse of the output (declaration scan) against extents/sizes computed from the source parse and the options",
    text="Trace_C10.tla walks the DIM statements and variable occurrences of the emitted text in textual order (clauses once, declared, extent, before-use, sized); expected extents and sizes come from the source parse, the default string size and the per-name configuration. String and numeric variables are placed in every position class (top level, only inside built-in / convertible function arguments, only READ/INPUT target, implicit array element, DIMensioned scalar/array, temporaries, read filter, joystick/hbuff prologue) x the option cube (default size 32/80 x subsets of a 3-entry size map x initialise), enumerated by GenSeq.tla.",
    note="Trusted: B09/Decb parsers, lexer shims. Position of BASE relative to DIM is not judged (BASIC09 uncertain).", ref="5 C10"),
+ "C13": dict(tech="TLC model checking of the closure algorithm over all graphs (safety + liveness) and TLC validation of real bundles parsed by the TLA+ BASIC09 grammar",
+   text="Bundle.tla: for all 65536 directed graphs over 4 nodes the worklist machine terminates (liveness under weak fairness) with exactly the reachable set, once each, dependencies ascending, root last (622592 states). The same graphs, dumped by TLC, are rendered to synthetic libraries and pushed through the real ProcedureBank; real programs over subsets of 18 runtime-using statements and decoys (RUN / PROCEDURE / placeholder inside string literals, DATA items, comments) go through convert(output_dependencies=True). Trace_C13.tla parses each bundle and checks root-last, unique, order, closed, minimal, library text token-for-token with the placeholder replaced, user-text-intact.",
+   note="Trusted: B09 grammar (decides what is a RUN statement), lexer shim (keeps original spelling for the order clause).", ref="5 C13"),
+ "C14": dict(tech="TLC static obligations: RUN statements of emitted programs and of the library against PARAM/TYPE declarations parsed by TLC from the library text",
+   text="Trace_C14.tla reads the signatures (parameter count, class per position, record types) from ecb.b09 of the working tree and checks every RUN of every emitted program (all 71 device forms x operand shapes with the full prologue, all convertible functions in 28 statement contexts, INPUT wrappers, empty-DATA filter, PRINT/HPRINT of numbers, HBUFF/JOYSTK prologue) and all calls between the 55 library procedures: defined, arity, string/numeric/record class, result position is a variable, TYPE declarations identical field by field.",
+   note="Trusted: B09 grammar and a simple static class inference (suffix, declarations, result class of built-ins). BYTE/INTEGER/REAL are one class (the property says numeric).", ref="5 C14"),
 }
 NA_REASON = "check not built yet in this round (work in progress; see DESIGN.md Appendix D)"
 m = {"version": 1, "setup_cmd": "cd /verif && ./setup.sh",
